@@ -308,7 +308,9 @@ def func_adl_parameterized_call(
     return decorator
 
 
-def _fill_in_default_arguments(func: Callable, call: ast.Call) -> Tuple[ast.Call, Type]:
+def _fill_in_default_arguments(
+    func: Callable, call: ast.Call, fill_arguments: bool = True
+) -> Tuple[ast.Call, Type]:
     """Given a call and the function definition:
 
     * Defaults are filled in
@@ -322,6 +324,8 @@ def _fill_in_default_arguments(func: Callable, call: ast.Call) -> Tuple[ast.Call
     Args:
         func (Callable): The function definition
         call (ast.Call): The ast call site to be modified
+        fill_arguments (bool): If False the arguments are left exactly as written and
+            only the return type is determined.
 
     Raises:
         ValueError: Missing arguments, etc.
@@ -340,7 +344,8 @@ def _fill_in_default_arguments(func: Callable, call: ast.Call) -> Tuple[ast.Call
     i_arg = 0
     arg_array = list(call.args)
     keywords = list(call.keywords)
-    for param in sig.parameters.values():
+    parameters = list(sig.parameters.values()) if fill_arguments else []
+    for param in parameters:
         if param.name != "self":
             if len(arg_array) <= i_arg:
                 # See if they specified it as a keyword
@@ -352,6 +357,7 @@ def _fill_in_default_arguments(func: Callable, call: ast.Call) -> Tuple[ast.Call
                     arg_array.append(a)
                 else:
                     raise ValueError(f"Argument {param.name} is required")
+            i_arg += 1
 
     # If we are making a change to the call, put in a reference back to the
     # original call.
@@ -649,8 +655,12 @@ def remap_by_types(
             return_results: List[_MethodTypeReturnInfo] = []
             for base_obj in base_obj_list:
                 # Do basic static analysis without doing any call backs.
+                # The stream operators themselves (`Select`, etc.) keep the arguments as
+                # written: their extra parameters are internal.
                 default_args_node, return_annotation_raw = _fill_in_default_arguments(
-                    base_obj.method, r_node
+                    base_obj.method,
+                    r_node,
+                    fill_arguments=base_obj.method_class is not ObjectStream,
                 )
                 return_annotation = resolve_type_vars(
                     return_annotation_raw, base_obj.obj_type, at_class=base_obj.method_class
